@@ -79,9 +79,10 @@ def output_value(value: CSSValue, out: OutputStream, config: Config):
     prev_end = -1
     for i, token in enumerate(value.value):
         # Handle edge case: a field is written close to previous token like this: `foo${bar}`.
-        # We should not add delimiter here
+        # We should not add delimiter here. A field without a position (made by the
+        # resolver, not read from the abbreviation) is never "close" to anything
 
-        if i != 0 and (not isinstance(token, tokens.Field) or token.start != prev_end):
+        if i != 0 and (not isinstance(token, tokens.Field) or token.start is None or token.start != prev_end):
             out.push(' ')
 
         output_token(token, out, config)
